@@ -220,8 +220,24 @@ def main(tier: str) -> int:
         for size in ((8, 16, 64) if tier == "quick" else (8, 9, 16, 32, 64, 150, 4096)):
             for alpha in (size + 2, 2 * size + 1):
                 steps += long_histories(run, rule, size, 3000 if tier == "quick" else 30000, rnd, alpha)
+    # the tables as the serializer drives them (TermEncoder -> rows -> reader): histories in which one statement mixes resident and new
+    # keys in tables of 1-3 slots; every id on the wire must resolve to the string the writer meant, or the writer must refuse
+    from .c18 import undersized_campaign  # noqa: PLC0415
+
+    cases18, verdicts18, gen18, _, _ = undersized_campaign(env.seed() + 5, 60 if tier == "quick" else 600)
+    e2e = 0
+    for i, case in enumerate(cases18):
+        v = verdicts18[i]["verdict"]
+        e2e += 1
+        if v != "ok":
+            run.violation({"clause": "end-to-end-resolution", "table": case["key"]["table"]},
+                          f"through the serializer, an id on the wire does not resolve to the string the writer meant ({v} at row {verdicts18[i]['at']}); "
+                          f"statements {case['replay']['statements'][:2]}", case["replay"])
+    states += gen18
+    trans += gen18
+    real_transitions += e2e
     return run.finish({
-        "states": states, "transitions": trans, "traces_validated_against_impl": real_transitions,
+        "states": states, "transitions": trans, "traces_validated_against_impl": real_transitions, "end_to_end_histories": e2e,
         "samples": samples, "exhaustive": True, "per_table": table, "long_history_steps": steps,
         "tlc_wall_s": round(tlc_wall, 1),
         "explanation": "TLC closes PyLookup for every size/rule (closure under every next key = all histories); the same graph is walked on real "
